@@ -479,8 +479,8 @@ pub fn gen_big(prop: &str, seed: u64, idx: u64) -> (StreamScenario, GenInfo) {
     };
     // longest pattern: around the interesting capacities
     let long = *r.pick(&[
-        1usize, 7, 100, 4096, 8191, 8192, 8193, 9000, 12000, 16384, 30000, 65535, 65536,
-        65537, 70000,
+        1usize, 2, 3, 7, 7, 100, 100, 1000, 4096, 8191, 8192, 8193, 9000, 12000, 16384, 30000,
+        65535, 65536, 65537, 70000,
     ]);
     let mut pats = vec![rand_bytes(r, &pal, long)];
     for _ in 0..r.range(0, 3) {
@@ -493,12 +493,14 @@ pub fn gen_big(prop: &str, seed: u64, idx: u64) -> (StreamScenario, GenInfo) {
     }
     let maxlen = long.max(6);
     let cap = (8 * maxlen).max(65536);
-    let target = match r.below(6) {
+    let target = match r.below(8) {
         0 => cap,
         1 => cap + 1,
         2 => cap - 1,
         3 => r.range(cap + 1, cap + maxlen + 10),
         4 => r.range(65536, 200_000),
+        5 => (cap + (cap - maxlen.min(cap - 1)) * r.range(1, 3) + r.below(3)).saturating_sub(1).min(700_000),
+        6 => r.range(2 * cap, 4 * cap).min(700_000),
         _ => r.range(cap, 2 * cap + 5).min(700_000),
     };
     // stream: mostly random with planted occurrences, in particular straddling
@@ -512,14 +514,21 @@ pub fn gen_big(prop: &str, seed: u64, idx: u64) -> (StreamScenario, GenInfo) {
         }
     };
     let longp = pats.iter().max_by_key(|p| p.len()).unwrap().clone();
-    for _ in 0..r.range(1, 4) {
-        let at = match r.below(4) {
-            0 => cap.saturating_sub(r.range(0, longp.len())),
+    // refill boundaries when every read fills the buffer: cap, cap + (cap-min), ...
+    let step = cap - maxlen.min(cap - 1);
+    let boundaries: Vec<usize> = (0..6).map(|k| cap + k * step).filter(|&b| b < target + longp.len()).collect();
+    for _ in 0..r.range(1, 5) {
+        let p = if r.chance(2, 3) { longp.clone() } else { r.pick(&pats).clone() };
+        let b = if boundaries.is_empty() { cap } else { *r.pick(&boundaries) };
+        let at = match r.below(6) {
+            0 => b.saturating_sub(r.range(0, p.len())),
             1 => r.below(target.max(1)),
-            2 => target.saturating_sub(longp.len()),
-            _ => cap.saturating_sub(longp.len()) + r.below(3),
+            2 => target.saturating_sub(p.len()),
+            3 => b.saturating_sub(p.len()) + r.below(3),
+            4 => b.saturating_sub(1),
+            _ => b.saturating_sub(p.len() / 2),
         };
-        plant(&mut stream, at, &longp, &mut planted);
+        plant(&mut stream, at, &p, &mut planted);
     }
     planted.sort();
     let opts = BuildOpts {
@@ -532,9 +541,18 @@ pub fn gen_big(prop: &str, seed: u64, idx: u64) -> (StreamScenario, GenInfo) {
         byte_classes: true,
         prefilter: r.chance(1, 2),
     };
-    let mode = r.below(5);
+    let mode = r.below(7);
     let mut reads = Vec::new();
     let default_read = match mode {
+        5 => *r.pick(&[ReadStep::Bytes(65536), ReadStep::Bytes(65535), ReadStep::Bytes(32768), ReadStep::Bytes(cap - maxlen.min(cap - 1)), ReadStep::Half]),
+        6 => {
+            // land exactly on / just before / just after the refill boundaries
+            for &b in &boundaries {
+                reads.push(ReadStep::Until(b.saturating_sub(r.below(3))));
+                reads.push(ReadStep::Until(b + r.below(3)));
+            }
+            ReadStep::Fill
+        }
         0 => ReadStep::Fill,
         1 => ReadStep::Bytes(r.range(1000, 9000)),
         2 => ReadStep::AllButOne,
